@@ -43,7 +43,7 @@ fn files_obs(files: &[(String, String)]) -> String {
     v.join(" ")
 }
 
-pub const LINES: &[&str] = &["EOF", "EOFX", " EOF", "\tEOF", "a", "$x", "\\$x", "\\\\", "`echo c`", "\"q\"", "'s'", "", "a\\"];
+pub const LINES: &[&str] = &["EOF", "EOFX", " EOF", "\tEOF", "a", "$x", "\\$x", "\\\\", "`echo c`", "\"q\"", "'s'", "", "a\\", "\ta"];
 pub const DELIMS: &[(&str, &str)] = &[("plain", "EOF"), ("squoted", "'EOF'"), ("dquoted", "\"EOF\""), ("backslash", "\\EOF"), ("partly-quoted", "E\"O\"F")];
 
 fn heredoc_script(body: &[usize], delim: usize, dash: bool, placement: usize) -> String {
@@ -54,7 +54,12 @@ fn heredoc_script(body: &[usize], delim: usize, dash: bool, placement: usize) ->
     let mut s = String::from("x=val\n");
     match placement {
         0 => s.push_str(&format!("vcat {op}{d}\n{b}{close}\n")),
-        1 => s.push_str(&format!("vcat {op}{d}; vcat {op}EOF2\n{b}{close}\n{b}EOF2\n")),
+        1 => s.push_str(&format!("vcat {op}{d}; vcat {op}EOF2\n{b}{close}\n{b}{}EOF2\n", if dash { "\t" } else { "" })),
+        // two here-documents on one line with *different* operators: each body follows its own operator
+        5 => {
+            let (op2, close2) = if dash { ("<<", "EOF2") } else { ("<<-", "\tEOF2") };
+            s.push_str(&format!("vcat {op}{d}; vcat {op2}EOF2\n{b}{close}\n{b}{close2}\n"))
+        }
         2 => s.push_str(&format!("echo \"[$(vcat {op}{d}\n{b}{close}\n)]\"\n")),
         3 => s.push_str(&format!("hf() {{\nvcat {op}{d}\n{b}{close}\n}}\nhf\n")),
         _ => s.push_str(&format!("vcat {op}{d} | vcat\n{b}{close}\n")),
@@ -179,16 +184,16 @@ pub fn run(tier: Tier, replay: Option<Value>) -> ! {
         for b in &bodies {
             for d in 0..DELIMS.len() {
                 for dash in [false, true] {
-                    for p in 0..5 {
-                        if tier == Tier::Quick && b.len() == 2 && p >= 1 && d >= 2 {
+                    for p in 0..6 {
+                        if tier == Tier::Quick && b.len() == 2 && p >= 1 && p != 5 && d >= 2 {
                             continue;
                         }
-                        let mut tags = vec![format!("delim:{}", DELIMS[d].0), format!("place:{}", ["plain", "two-on-a-line", "in-cmdsub", "in-function", "before-pipe"][p])];
+                        let mut tags = vec![format!("delim:{}", DELIMS[d].0), format!("place:{}", ["plain", "two-on-a-line", "in-cmdsub", "in-function", "before-pipe", "two-on-a-line-mixed-operators"][p])];
                         if dash {
                             tags.push("dash".into());
                         }
                         for i in b {
-                            let t = format!("line:{}", ["EOF", "EOFX", "sp-EOF", "tab-EOF", "a", "$x", "esc-$x", "backslashes", "backquote", "dquoted", "squoted", "empty", "trailing-backslash"][*i]);
+                            let t = format!("line:{}", ["EOF", "EOFX", "sp-EOF", "tab-EOF", "a", "$x", "esc-$x", "backslashes", "backquote", "dquoted", "squoted", "empty", "trailing-backslash", "tab-a"][*i]);
                             if !tags.contains(&t) {
                                 tags.push(t);
                             }
@@ -221,7 +226,7 @@ pub fn run(tier: Tier, replay: Option<Value>) -> ! {
         rep.sample(json!({"heredoc": scripts[scripts.len() / 2]}));
     }
     rep.rule = format!(
-        "(A) all redirection lists of <= {} items over {:?} attached to {} command kinds (builtin, external, function, group, subshell, loop, eval) with pre-existing files f, g and fd 9, with/without noclobber; (B) all here-document bodies of <= {} lines over {:?} x 5 delimiter forms x <</<<- x 5 placements; distinct = tag set of the case",
+        "(A) all redirection lists of <= {} items over {:?} attached to {} command kinds (builtin, external, function, group, subshell, loop, eval) with pre-existing files f, g and fd 9, with/without noclobber; (B) all here-document bodies of <= {} lines over {:?} x 5 delimiter forms x <</<<- x 6 placements (incl. two documents on one line with the same and with different operators); distinct = tag set of the case",
         tier.pick(2, 3),
         ITEMS,
         KINDS.len(),
